@@ -104,7 +104,18 @@ def lookup_path(fields, path):
     return v
 
 
-def gen_value(f, rng, pool, fields=None, small=False):
+def has_free_varbytes(f):
+    """does the format contain a length-prefixed byte block whose content is free (not a checked dependency blob)?"""
+    if isinstance(f, dict):
+        if f.get("k") == "varbytes" and not f.get("chk"):
+            return True
+        return any(has_free_varbytes(v) for v in f.values())
+    if isinstance(f, (list, tuple)):
+        return any(has_free_varbytes(v) for v in f)
+    return False
+
+
+def gen_value(f, rng, pool, fields=None, small=False, big=False):
     k = f["k"]
     if k == "uint":
         m = 2 ** (8 * f["w"])
@@ -123,22 +134,28 @@ def gen_value(f, rng, pool, fields=None, small=False):
     if k == "varbytes":
         if f.get("chk"):
             return ("b", rng.choice(pool[f["chk"]]))
-        n = rng.choice([0, 0, 1, 2, 20, 0xfc, 0xfd, 300] if not small else [0, 1, 3, 25])
+        if big:
+            # blocks around the sizes at which readers switch strategy (buffer sizes, pre-allocation clamps)
+            n = rng.choice([1023, 1024, 1025, 1500, 2048, 2049, 3000])
+        else:
+            n = rng.choice([0, 0, 1, 2, 20, 0xfc, 0xfd, 300] if not small else [0, 1, 3, 25])
         return ("b", bytes(rng.below(256) for _ in range(n)))
     if k == "list":
         heavy = f["elem"]["k"] in ("struct", "opaque") or small or (f["elem"]["k"] == "bytes" and f["elem"]["n"] >= 20)
         n = rng.choice([0, 0, 1, 2, 3] + ([5] if heavy else [0xfc, 0xfd, 300]))
-        return ("l", [gen_value(f["elem"], rng, pool, fields, small=True) for _ in range(n)])
+        if big and n == 0:
+            n = 1
+        return ("l", [gen_value(f["elem"], rng, pool, fields, small=True, big=big and i == n - 1) for i in range(n)])
     if k == "listof":
         ref = lookup_path(fields or [], f["path"])
         n = len(ref[1]) if ref and ref[0] == "l" else 0
         return ("l", [gen_value(f["elem"], rng, pool, fields, small=True) for _ in range(n)])
     if k == "opt":
-        return ("o", gen_value(f["elem"], rng, pool, fields, small) if rng.chance(1, 2) else None)
+        return ("o", gen_value(f["elem"], rng, pool, fields, small, big) if (big or rng.chance(1, 2)) else None)
     if k == "struct":
         fs = []
         for name, ff in f["fields"]:
-            fs.append((name, gen_value(ff, rng, pool, fs, small)))
+            fs.append((name, gen_value(ff, rng, pool, fs, small, big)))
         return ("s", fs)
     if k == "opaque":
         return ("b", rng.choice(pool[f["name"]]))
